@@ -123,7 +123,10 @@ impl ReactiveNode for RwLock<SubscriberSet> {
     fn mark_check(&self) {}
 
     fn mark_subscribers_check(&self) {
-        let subs = self.write().unwrap().take();
+        // Clone rather than take: a subscriber that does not re-run now (for
+        // example an effect under a paused owner) must stay subscribed, or it
+        // would never hear of a later change.
+        let subs = self.read().unwrap().clone();
         for sub in subs {
             sub.mark_dirty();
         }
